@@ -183,6 +183,9 @@ def rule_index_typing(rep, syn, rel):
                 rep.ob('R4-index-comparator-type', '%s/%s' % (who, lab), got == T, f.loc(sw.node),
                        '' if got == T else "attribute type '%s' is compared as %s in the generated index comparator (expected %s)" % (lab, got, T))
     rep.floor('R4-comparator-switches', n, 2)
+    # the generated comparator text itself: cast of column c is typecasts[c]; operator()/less/equal decided over all orderings
+    from props import comparators
+    rep.floor('R4-generated-comparator-methods', comparators.rule_generated_comparator(rep, rel), 3)
     # padding in getPaddedRangeBounds
     fs = [f for f in syn.functions if f.name == 'getPaddedRangeBounds']
     if not fs:
@@ -239,6 +242,13 @@ def rule_shared_helpers(rep, eng_helpers, syn):
 
 
 MUTANTS = [
+    ('generated-less-casts-by-position', 'src/synthesiser/Relation.cpp', '''                std::size_t attrib = ind[i];
+                const auto& typecast = typecasts[attrib];
+
+                decl << "(" << typecast << "(a[" << attrib << "]) < " << typecast << "(b[" << attrib << "]))";''', '''                std::size_t attrib = ind[i];
+                const auto& typecast = typecasts[i];
+
+                decl << "(" << typecast << "(a[" << attrib << "]) < " << typecast << "(b[" << attrib << "]))";''', 'R4'),
     ('synth-unsigned-padding-signed', 'src/synthesiser/Synthesiser.cpp',
      '''                        supremum = "ramBitCast<RamDomain>(MIN_RAM_UNSIGNED)";
                         infimum = "ramBitCast<RamDomain>(MAX_RAM_UNSIGNED)";''',
